@@ -61,6 +61,21 @@ def packages():
     ]
     for d in defs:
         out.append(pkg([iface("t", ("type", "d", d), ("func", "f", [("x", ref("d")), ("y", U32)], ref("d")), ("func", "g", [], None))]))
+    # every constructor inside every position of every other constructor (depth 2), named and inline
+    items, funcs = [], []
+    for i, d in enumerate(defs):
+        items.append(("type", f"d{i}", d))
+    for i in range(len(defs)):
+        r = ref(f"d{i}")
+        outer = [("list", r), ("option", r), ("result", r, STR), ("result", U8, r), ("tuple", [U8, r]),
+                 ("record", [("a", r), ("b", U32)]), ("variant", [("n", None), ("p", r)])]
+        for j, o in enumerate(outer):
+            items.append(("type", f"o{i}x{j}", o))
+        funcs.append(("func", f"f{i}", [("x", ref(f"o{i}x0")), ("y", ref(f"o{i}x5"))], ref(f"o{i}x6")))
+        # the same shapes written inline in a signature (anonymous compound types)
+        inline = defs[i] if defs[i][0] in ("prim", "list", "option", "result", "tuple") else r
+        funcs.append(("func", f"g{i}", [("x", ("list", inline)), ("y", ("option", ("tuple", [inline, U8])))], ("result", inline, ("list", STR))))
+    out.append(pkg([iface("t", *(items + funcs))]))
     # aliases of aliases, named types inside compound types
     out.append(pkg([iface("t", ("type", "r", ("record", [("a", U32)])), ("type", "a1", ref("r")), ("type", "a2", ref("a1")),
                           ("type", "l", ("list", ref("a2"))), ("type", "v", ("variant", [("n", None), ("s", ref("r")), ("o", ("option", ref("l")))])),
